@@ -13,7 +13,7 @@ class ModelError(RuntimeError):
     pass
 
 
-def run_batch(lines, timeout=900):
+def run_batch(lines, timeout=2700):
     """Send request lines to the driver; return the reply lines (same length)."""
     if not lines:
         return []
@@ -40,13 +40,15 @@ def run_batch(lines, timeout=900):
     return out
 
 
-def run_batch_parallel(lines, jobs=8, timeout=900):
+def run_batch_parallel(lines, jobs=8, timeout=2700):
     """Split a big batch over several driver processes."""
     if len(lines) < 2000 or jobs <= 1:
         return run_batch(lines, timeout)
     from concurrent.futures import ThreadPoolExecutor
 
     n = len(lines)
+    if n > 40000:
+        jobs = max(jobs, 14)  # the thorough tier's big batches: more, shorter driver processes
     step = (n + jobs - 1) // jobs
     chunks = [lines[i : i + step] for i in range(0, n, step)]
     with ThreadPoolExecutor(max_workers=jobs) as ex:
